@@ -14,6 +14,13 @@ PROP = 'C13'
 _FP_CACHE = {}
 
 
+def _flag(kind):
+    """the no-altitude mode is selected by a FALSY with_altitude: the literal False, a numpy boolean
+    (what any numpy / pandas comparison returns) and the integer 0 must all select it"""
+    import numpy as np
+    return {'False': False, 'np.bool_': np.bool_(False), '0': 0}[kind]
+
+
 def _scenario_class():
     from . import c02
 
@@ -73,28 +80,28 @@ def _scenario_class():
                     if not (isinstance(vel, ig.K) and vel[0] == 'row' and vel[3] == 0.0):
                         ig.VIOL.add('vd_nonzero', '%s: VD entry of a trajectory row is not the literal 0.0' % what)
 
-        def sc_integrate(self, m, wa):
+        def sc_integrate(self, m, wa, flag='False'):
             ig, h = self.integ, self.h
-            it = h.state(self.n, self.cap, False)
+            it = h.state(self.n, self.cap, _flag(flag))
             alt0 = ig.cellkey(it.lla.cells[(ig.ikey(self.n - 1), (2,))])
             ret = it.integrate(ig.Chunk('c', m))
             self.rows_ok(it, self.n, m, alt0, 'integrate(%d)' % m)
             self.traj_rows_ok(it.trajectory.tail.rows[1:], 'integrate(%d)' % m)
             return {'new_cap': it.lla.cap}
 
-        def sc_predict(self, wa):
+        def sc_predict(self, wa, flag='False'):
             ig, h = self.integ, self.h
-            it = h.state(self.n, self.cap, False)
+            it = h.state(self.n, self.cap, _flag(flag))
             alt0 = ig.cellkey(it.lla.cells[(ig.ikey(self.n - 1), (2,))])
             pr = it.predict(ig.Chunk('c', 1).row(0))
             self.traj_rows_ok([pr], 'predict')
             self.rows_ok(it, self.n, 1, alt0, 'predict')
             return {'new_cap': it.lla.cap}
 
-        def sc_set_pva(self, m, wa, same=None):
+        def sc_set_pva(self, m, wa, same=None, flag='False'):
             """overwrite with an ARBITRARY state (non-zero vertical velocity), then integrate"""
             ig, h = self.integ, self.h
-            it = h.state(self.n, self.cap, False)
+            it = h.state(self.n, self.cap, _flag(flag))
             p = ig.Pva('P')
             it.set_pva(p)
             vd = it.velocity_n.cells.get((ig.ikey(self.n - 1), (2,)))
@@ -109,11 +116,11 @@ def _scenario_class():
             self.traj_rows_ok(it.trajectory.tail.rows[1:], 'integrate after set_pva')
             return {'new_cap': it.lla.cap}
 
-        def sc_constructor(self, wa):
+        def sc_constructor(self, wa, flag='False'):
             ig, h = self.integ, self.h
             h.SD.Integrator.INITIAL_SIZE = self.isz
             p = ig.Pva('P')
-            it = h.SD.Integrator(p, False)
+            it = h.SD.Integrator(p, _flag(flag))
             vd = it.velocity_n.cells.get((ig.ikey(0), (2,)))
             self.check('constructor stores vertical velocity 0.0 for an arbitrary supplied VD', isinstance(vd, float) and vd == 0.0)
             first = ig._key(it.trajectory.tail.rows[0])
@@ -256,6 +263,8 @@ def run(run):
     for m in ((0, 1, 2, 3) if run.tier == 'quick' else (0, 1, 2, 3, 4)):
         scen.append(('integrate', dict(m=m, wa=False)))
     scen += [('predict', dict(wa=False)), ('set_pva', dict(m=0, wa=False)), ('set_pva', dict(m=2, wa=False)), ('constructor', dict(wa=False))]
+    for fl in ('np.bool_', '0'):
+        scen += [('integrate', dict(m=1, wa=False, flag=fl)), ('set_pva', dict(m=1, wa=False, flag=fl)), ('constructor', dict(wa=False, flag=fl))]
     for seq in (('i1', 's', 'i2'), ('s', 'p', 'i1'), ('i2', 'p', 's', 'i1'), ('s', 's', 'i1'), ('i0', 's', 'i2')):
         scen.append(('history', dict(seq=seq, wa=False)))
     total_paths = 0
@@ -409,7 +418,7 @@ def replay(spec):
 
     def mk(size, pva):
         cls = type('It', (strapdown.Integrator,), {'INITIAL_SIZE': int(size)})
-        return cls(pva, False)
+        return cls(pva, _flag(P.get('flag', 'False')))
 
     def check(it, alts, what):
         tr = it.trajectory
